@@ -12,7 +12,7 @@ def run(rep, tier, seed):
     prelude = xmlgen.simple_model(decl=G.PRELUDE)
     tg = G.TypedGen(rng)
     ug = G.Gen(rng)
-    n_batches = 60 if quick else 1500
+    n_batches = 200 if quick else 1500
     for i in range(n_batches):
         extras = []
         for _ in range(25):
@@ -20,12 +20,12 @@ def run(rep, tier, seed):
             extras.append("E:" + G.render_min(t, rng))
         cases.append(("exprs", Case("e%d" % i, [Step("parse_doc", 0, "xml_buffer", 1, 0, prelude),
                                                 Step("laws", 0, rng.randrange(1 << 30), 400, *extras)], timeout=120)))
-    for i in range(30 if quick else 600):
+    for i in range(100 if quick else 600):
         extras = ["Q:" + q for _, q in Q.catalogue(rng, 40)]
         cases.append(("queries", Case("q%d" % i, [Step("parse_doc", 0, "xml_buffer", 1, 0, Q.MODEL),
                                                   Step("laws", 0, rng.randrange(1 << 30), 500, *extras)], timeout=120)))
     mg = GM.ModelGen(rng, 4, 8, 20)
-    for i in range(120 if quick else 3000):
+    for i in range(400 if quick else 3000):
         xml = GM.render_xml(mg.model(), rng)
         cases.append(("model", Case("m%d" % i, [Step("parse_doc", 0, "xml_buffer", 1, 0, xml),
                                                 Step("laws", 0, rng.randrange(1 << 30), 300)], timeout=120)))
